@@ -197,8 +197,7 @@ def check(ctx):
     # CidStore::verify: verify_value(cid, value)? for each entry
     for nm, inner in (("cid_store::CidStore::verify", "verify::verify_value"), ("cid_store::CidStore::verify_raw_value", "verify::verify_raw_value")):
         fn = F.fn(nm)
-        cs = fn.calls_to(inner)
-        ok = len(cs) == 1 and lib.err_propagates(fn, cs[0]) and not [g_ for g_ in lib.guards_of(fn, cs[0].bb) if g_[1] is not None]
+        ok, how = lib.each_entry_checked(F, fn, inner)
         ctx.require(ok, "R-MUST", "cid:%s-each" % nm.split("::")[-1], "%s checks every entry with %s, error propagated" % (nm.split("::")[-1], inner),
                     "%s no longer checks every entry with %s" % (nm, inner))
 
@@ -314,21 +313,26 @@ def check(ctx):
     ctx.require(ok, "R-MUST", "sig:verify-each-peer", "every grouped peer's signature verified over its cids with the verifier's salt, error propagated",
                 "DataVerifier::verify no longer verifies every peer's (public_key, cids, salt, signature)")
     cpt = F.fn("verification::collect_peers_cids_from_trace")
+    # try_push_cid reached directly or through a thin helper that always calls it
+    fwd = lib.forwarding_calls(F, cpt, "verification::try_push_cid")
+    fwd_bbs = {c.bb for c, _ in fwd}
     rows = {}
     for st in lib.enumerate_paths(cpt, max_paths=60000, max_visits=2):
         kinds = [v for k, v in st.variants.items() if v in ("Call", "Canon", "Par", "Fold", "Ap")]
         for kd in set(kinds):
-            pushes = len(lib.path_calls(st, "verification::try_push_cid"))
+            pushes = len([c for c in st.calls if c.bb in fwd_bbs])
             rows.setdefault(kd, set()).add(pushes > 0)
     ctx.require(rows.get("Call") == {True, False} and True in rows.get("Canon", set()), "R-TABLE", "sig:collect-kinds",
                 "Call(with cid) and Canon(Executed) states contribute CIDs to their signer", "collect_peers_cids_from_trace coverage is %s" % rows)
-    for c in cpt.calls_to("verification::try_push_cid"):
+    for c, _ in fwd:
         ctx.require(lib.err_propagates(cpt, c), "R-MUST", "sig:collect-propagates", "try_push_cid error propagated", "collect_peers_cids_from_trace ignores try_push_cid's error")
-    cpp = Prov(cpt)
-    for c in cpt.calls_to("verification::try_push_cid"):
-        pk = cpp.operand(c.args[1])
-        ctx.require(lib.mentions_field(pk, "peer_pk") and lib.mentions_field(pk, "tetraplet_store") or lib.mentions_field(pk, "peer_pk"), "R-FLOW", "sig:collect-signer",
-                    "signer := peer_pk of the stored tetraplet of that result", "try_push_cid signer is `%s`" % show(pk)[:120])
+    cpp = Prov(cpt, F=F, inline=2)
+    for c, _ in fwd:
+        node = cpp._call(c, 0, frozenset())
+        for inner in lib.inlined_calls(node, "verification::try_push_cid"):
+            pk = inner[2][1]
+            ctx.require(lib.mentions_field(pk, "peer_pk") and lib.mentions_field(pk, "tetraplet_store"), "R-FLOW", "sig:collect-signer",
+                        "signer := peer_pk of the stored tetraplet of that result", "try_push_cid signer is `%s`" % show(pk)[:120])
     gc = F.fn("CallResult>::get_cid")
     rows = {}
     for st in lib.enumerate_paths(gc):
